@@ -196,6 +196,15 @@ pub struct Counting {
     xs: Vec<i64>,
     pos: usize,
     pub pulled: Arc<AtomicUsize>,
+    /// what `size_hint` reports (real upstreams differ: a `Vec` iterator is exact, a `filter_map` chain only
+    /// knows an upper bound, a generator knows nothing): 0 = the default `(0, None)`, 1 = exact,
+    /// 2 = `(0, Some(remaining))`, 3 = `(remaining, None)`. The stream must not depend on it.
+    hint: u8,
+}
+
+/// the kind of `size_hint` a case uses: a function of the case so that runs are reproducible
+pub fn hint_of(n: usize, w: usize, extra: usize) -> u8 {
+    ((n * 7 + w * 3 + extra) % 4) as u8
 }
 
 impl Iterator for Counting {
@@ -208,6 +217,15 @@ impl Iterator for Counting {
             Some(r)
         } else {
             None
+        }
+    }
+    fn size_hint(&self) -> (usize, Option<usize>) {
+        let rem = self.xs.len() - self.pos;
+        match self.hint {
+            1 => (rem, Some(rem)),
+            2 => (0, Some(rem)),
+            3 => (rem, None),
+            _ => (0, None),
         }
     }
 }
@@ -273,7 +291,7 @@ pub fn run_pipe_controlled_ext(
     let pulled = Arc::new(AtomicUsize::new(0));
     let counts: Arc<Vec<AtomicUsize>> = Arc::new((0..n).map(|_| AtomicUsize::new(0)).collect());
     let counts2 = counts.clone();
-    let upstream = Counting { xs: xs.to_vec(), pos: 0, pulled: pulled.clone() };
+    let upstream = Counting { xs: xs.to_vec(), pos: 0, pulled: pulled.clone(), hint: hint_of(n, w, choices.len()) };
     let pipeline: text_utils::data::Pipeline<(usize, i64), i64> = Arc::new(move |(i, x)| {
         counts2[i].fetch_add(1, Ordering::SeqCst);
         f_model(x)
@@ -441,7 +459,8 @@ pub fn run_pipe_free(xs: &[i64], w: usize, delays: &[u64]) -> PipeRun {
     let counts: Arc<Vec<AtomicUsize>> = Arc::new((0..n).map(|_| AtomicUsize::new(0)).collect());
     let counts2 = counts.clone();
     let delays = delays.to_vec();
-    let upstream = Counting { xs: xs.to_vec(), pos: 0, pulled: pulled.clone() };
+    let delays_t = delays.clone();
+    let upstream = Counting { xs: xs.to_vec(), pos: 0, pulled: pulled.clone(), hint: hint_of(n, w, delays.len()) };
     let pipeline: text_utils::data::Pipeline<(usize, i64), i64> = Arc::new(move |(i, x)| {
         counts2[i].fetch_add(1, Ordering::SeqCst);
         let d = if delays.is_empty() { 0 } else { delays[i % delays.len()] };
@@ -456,7 +475,8 @@ pub fn run_pipe_free(xs: &[i64], w: usize, delays: &[u64]) -> PipeRun {
         let out: Vec<i64> = pipe.collect();
         let _ = tx.send(out);
     });
-    let res = rx.recv_timeout(Duration::from_millis(10_000));
+    let total_us: u64 = (0..n).map(|i| if delays_t.is_empty() { 0 } else { delays_t[i % delays_t.len()] }).sum();
+    let res = rx.recv_timeout(Duration::from_millis(10_000 + total_us / 1000 * 2));
     let _ = std::panic::take_hook();
     std::panic::set_hook(Box::new(|_| {}));
     let mut run = PipeRun {
